@@ -95,10 +95,23 @@ def interactive_env(shape, r):
                 'reset': {'name': 'empty', 'shape': shape}, 'trans': [0, 1, 4, 5, 2, 6, 3],
                 'obs': {'name': 'partially_occluded', 'area': (-2, 0, -1, 1)},
                 'reward': {'name': 'reduce_sum', 'parts': [{'name': 'living_reward', 'params': [-0.1]}, {'name': 'actuate_door', 'params': [0.5, -0.5]},
-                                                            {'name': 'pickndrop', 'params': [0.3, -0.3], 'ty': gen.TY['Key']}]},
+                                                            {'name': 'pickndrop', 'params': [0.3, -0.3], 'ty': gen.TY['Key']},
+                                                            {'name': 'getting_closer_shortest_path', 'params': [0.7, -0.7], 'ty': gen.TY['Exit']}]},
                 'term': {'name': 'reach_exit'}}
         _IENV[shape] = ('interactive', comp.build_env(desc), desc)
     return _IENV[shape]
+
+
+def one_exit(cs, r):
+    """exactly one Exit (the precondition of the shortest-path reward), never under the agent"""
+    g, p, o, held = cs
+    h, w = gen.shape_of(g)
+    EX = gen.TY['Exit']
+    g = tuple(tuple(gen.FLOOR if c[0] == EX else c for c in row) for row in g)
+    cells = [(y, x) for y in range(h) for x in range(w) if (y, x) != p]
+    if cells:
+        g = gen.set_cell(g, r.choice(cells), (EX, 0, 0, None))
+    return (g, p, o, held)
 
 
 def histories(ctx):
@@ -116,7 +129,9 @@ def histories(ctx):
                 s = env.functional_reset()
             else:
                 # a dense interactive world (doors are the objects mutated in place) under all seven dynamics, every type declared
-                cs = tsuite.interactive_world(r)
+                cs = one_exit(tsuite.interactive_world(r), r)
+                if gen.shape_of(cs[0]) == (3, 3) and r.random() < 0.6 and cs[0][2][1][0] not in (gen.TY['Wall'], gen.TY['Box'], gen.TY['Exit']) and not (cs[0][2][1][0] == gen.TY['Door'] and cs[0][2][1][1] != 0):
+                    cs = (cs[0], (2, 1), 0, cs[3])          # aligned with the 3x3 view: on its anchor cell, facing FORWARD
                 label, env, desc = interactive_env(gen.shape_of(cs[0]), r)
                 s = wire.mkstate(cs)
             hist = []
@@ -221,7 +236,7 @@ def aliasing_after_the_fact(ctx):
     """mutate the result, look at the input; mutate the input, look at the result"""
     r = ctx.rng
     for _ in range(120 if ctx.tier == 'quick' else 1200):
-        cs = tsuite.interactive_world(r)
+        cs = one_exit(tsuite.interactive_world(r), r)
         _, env, desc = interactive_env(gen.shape_of(cs[0]), r)
         s = wire.mkstate(cs)
         a = r.choice(desc['actions'])
